@@ -562,18 +562,42 @@ func (s *MutableState) SetNode(ctx context.Context, existingNode, node *node.Nod
 	}
 
 	// Update indices mapping various keys to nodes.
-
-	// Consensus key.
-	if existingNode != nil && !existingNode.Consensus.ID.Equal(node.Consensus.ID) {
-		// Remove old consensus address mapping if it has changed.
-		address := []byte(tmcrypto.PublicKeyToCometBFT(&existingNode.Consensus.ID).Address())
-		if err = s.ms.Remove(ctx, nodeByConsAddressKeyFmt.Encode(address)); err != nil {
-			return abciAPI.UnavailableStateError(err)
+	//
+	// All stale mappings are removed before any new mapping is inserted so that a node
+	// which exchanges keys among its roles (e.g. its new P2P key is its old TLS key) does
+	// not lose a freshly inserted mapping to the removal of a later key kind.
+	if existingNode != nil {
+		// Remove old consensus address and key mapping if it has changed.
+		if !existingNode.Consensus.ID.Equal(node.Consensus.ID) {
+			address := []byte(tmcrypto.PublicKeyToCometBFT(&existingNode.Consensus.ID).Address())
+			if err = s.ms.Remove(ctx, nodeByConsAddressKeyFmt.Encode(address)); err != nil {
+				return abciAPI.UnavailableStateError(err)
+			}
+			if err = s.ms.Remove(ctx, keyMapKeyFmt.Encode(&existingNode.Consensus.ID)); err != nil {
+				return abciAPI.UnavailableStateError(err)
+			}
 		}
-		if err = s.ms.Remove(ctx, keyMapKeyFmt.Encode(&existingNode.Consensus.ID)); err != nil {
-			return abciAPI.UnavailableStateError(err)
+		// Remove old P2P key mapping if it has changed.
+		if !existingNode.P2P.ID.Equal(node.P2P.ID) {
+			if err = s.ms.Remove(ctx, keyMapKeyFmt.Encode(&existingNode.P2P.ID)); err != nil {
+				return abciAPI.UnavailableStateError(err)
+			}
+		}
+		// Remove old VRF key if it has changed.
+		if !existingNode.VRF.ID.Equal(node.VRF.ID) {
+			if err = s.ms.Remove(ctx, keyMapKeyFmt.Encode(&existingNode.VRF.ID)); err != nil {
+				return abciAPI.UnavailableStateError(err)
+			}
+		}
+		// Remove old TLS key mapping if it has changed.
+		if !existingNode.TLS.PubKey.Equal(node.TLS.PubKey) {
+			if err = s.ms.Remove(ctx, keyMapKeyFmt.Encode(&existingNode.TLS.PubKey)); err != nil {
+				return abciAPI.UnavailableStateError(err)
+			}
 		}
 	}
+
+	// Consensus key.
 	address := []byte(tmcrypto.PublicKeyToCometBFT(&node.Consensus.ID).Address())
 	if err = s.ms.Insert(ctx, nodeByConsAddressKeyFmt.Encode(address), rawNodeID); err != nil {
 		return abciAPI.UnavailableStateError(err)
@@ -583,34 +607,16 @@ func (s *MutableState) SetNode(ctx context.Context, existingNode, node *node.Nod
 	}
 
 	// Committee P2P key.
-	if existingNode != nil && !existingNode.P2P.ID.Equal(node.P2P.ID) {
-		// Remove old P2P key mapping if it has changed.
-		if err = s.ms.Remove(ctx, keyMapKeyFmt.Encode(&existingNode.P2P.ID)); err != nil {
-			return abciAPI.UnavailableStateError(err)
-		}
-	}
 	if err = s.ms.Insert(ctx, keyMapKeyFmt.Encode(&node.P2P.ID), rawNodeID); err != nil {
 		return abciAPI.UnavailableStateError(err)
 	}
 
 	// VRF key.
-	if existingNode != nil && !existingNode.VRF.ID.Equal(node.VRF.ID) {
-		// Remove old VRF key if it has changed.
-		if err = s.ms.Remove(ctx, keyMapKeyFmt.Encode(&existingNode.VRF.ID)); err != nil {
-			return abciAPI.UnavailableStateError(err)
-		}
-	}
 	if err = s.ms.Insert(ctx, keyMapKeyFmt.Encode(&node.VRF.ID), rawNodeID); err != nil {
 		return abciAPI.UnavailableStateError(err)
 	}
 
 	// Committee TLS key.
-	if existingNode != nil && !existingNode.TLS.PubKey.Equal(node.TLS.PubKey) {
-		// Remove old TLS key mapping if it has changed.
-		if err = s.ms.Remove(ctx, keyMapKeyFmt.Encode(&existingNode.TLS.PubKey)); err != nil {
-			return abciAPI.UnavailableStateError(err)
-		}
-	}
 	if err = s.ms.Insert(ctx, keyMapKeyFmt.Encode(&node.TLS.PubKey), rawNodeID); err != nil {
 		return abciAPI.UnavailableStateError(err)
 	}
